@@ -343,6 +343,8 @@ type c10CLICase struct {
 	Pos      string `json:"pos"`
 	Bin      bool   `json:"bin"`
 	End      bool   `json:"end,omitempty"`      // a global -e 2021/01/01: the unreadable part lies in days after the period
+	Begin    bool   `json:"begin,omitempty"`    // a global -b 2021/01/01 while both paths were last modified in 2001: what a file holds does not depend on its time stamps
+	PauseMS  int    `json:"pausems,omitempty"`  // fifo: the writer pauses this long after half of the content
 	Defaults bool   `json:"defaults,omitempty"` // the files are ./food.yaml and ./log.yaml of the working directory, no -d / -l
 	// ViaConfig: the unreadable path is named by the configuration file (not by -d / -l), and the working directory holds
 	// readable files under the default names: the configured path is the one that counts
@@ -500,7 +502,14 @@ func c10Special(c c10CLICase, ctx *vCtx, onLog bool) *vFailure {
 			if err != nil {
 				return
 			}
-			_, _ = f.WriteString(content)
+			if c.PauseMS > 0 {
+				// the writer is slow, not gone: what it writes after the pause belongs to the file
+				_, _ = f.WriteString(content[:len(content)/2])
+				time.Sleep(time.Duration(c.PauseMS) * time.Millisecond)
+				_, _ = f.WriteString(content[len(content)/2:])
+			} else {
+				_, _ = f.WriteString(content)
+			}
 			f.Close()
 		}()
 		flp, fbp := lp, bp
@@ -509,8 +518,11 @@ func c10Special(c c10CLICase, ctx *vCtx, onLog bool) *vFailure {
 		} else {
 			fbp = fifo
 		}
-		got := vRunBin(vInvocation{Args: mkArgs(flp, fbp)}, 30*time.Second)
+		got := vRunBin(vInvocation{Args: mkArgs(flp, fbp)}, 30*time.Second+time.Duration(c.PauseMS)*time.Millisecond)
 		ctx.Run(2)
+		if c.PauseMS > 0 {
+			ctx.Labelf("fifo-writer-pauses-%dms", c.PauseMS)
+		}
 		// unblock the writer if nobody opened the pipe for reading
 		if f, err := os.OpenFile(fifo, os.O_RDONLY|syscall.O_NONBLOCK, 0); err == nil {
 			f.Close()
@@ -616,6 +628,12 @@ func checkC10CLI(c c10CLICase, ctx *vCtx) *vFailure {
 		if c.End {
 			inv.Args = append([]string{"-e", "2021/01/01"}, inv.Args...)
 		}
+		if c.Begin {
+			inv.Args = append([]string{"-b", "2021/01/01"}, inv.Args...)
+			old := time.Unix(1000000000, 0)
+			_ = os.Chtimes(lp, old, old)
+			_ = os.Chtimes(bp, old, old)
+		}
 		if c.ViaConfig {
 			cwd := filepath.Join(vScratchDir(), "c10-cwd-cfg")
 			_ = os.RemoveAll(cwd)
@@ -676,6 +694,9 @@ func checkC10CLI(c c10CLICase, ctx *vCtx) *vFailure {
 	if c.Defaults {
 		ctx.Label("default file names")
 	}
+	if c.Begin {
+		ctx.Label("with -b and old time stamps")
+	}
 	ctx.Label("cmd:" + strings.Join(cmd.args[:vMin(2, len(cmd.args))], " "))
 	ctx.NonTrivial(strings.HasPrefix(c.Shape, "dir") || c.Pos != "last")
 	// control: everything readable (a 60000-byte line is below the limit)
@@ -715,6 +736,9 @@ func c10CLISpace() []c10CLICase {
 			}
 			out = append(out, c10CLICase{Cmd: ci, OnLog: onLog, Shape: "dir-proc", Bin: ci%2 == 0})
 			out = append(out, c10CLICase{Cmd: ci, OnLog: onLog, Shape: "fifo"})
+			if vThorough() || ci%16 == 1 {
+				out = append(out, c10CLICase{Cmd: ci, OnLog: onLog, Shape: "fifo", PauseMS: 11500})
+			}
 			if onLog && cm.book {
 				out = append(out, c10CLICase{Cmd: ci, OnLog: onLog, Shape: "same-file"})
 			}
@@ -750,6 +774,11 @@ func c10CLISpace() []c10CLICase {
 				e := c
 				e.End = true
 				extra = append(extra, e)
+			}
+			if c10CLICmds[c.Cmd].log && c10CLICmds[c.Cmd].args[0] != "summary" && c10CLICmds[c.Cmd].args[0] != "lint" && c10CLICmds[c.Cmd].args[0] != "stats" && !strings.Contains(strings.Join(c10CLICmds[c.Cmd].args, " "), " -b") && c.Shape != "dir-proc" {
+				b := c
+				b.Begin = true
+				extra = append(extra, b)
 			}
 			if c.Shape != "dir-proc" {
 				d := c
